@@ -1,15 +1,26 @@
 #!/bin/sh
-# For each "fix:" commit: revert it in the working tree of /repo, run the checks of the affected properties
-# (quick tier), expect VIOLATION, restore the tree.
+# For each "fix:" commit: revert it in a scratch worktree of /repo (never in /repo itself), run the quick checks of the
+# affected properties against that worktree (VERIF_REPO), expect a VIOLATION, remove the worktree.
+# A fix whose lines were changed again by a later fix cannot be reverted alone ("cannot revert"): the later fix's revert covers it.
 cd /verif
-run() { c=$1; shift; 
-  git -C /repo show $c | git -C /repo apply -R || { echo "cannot revert $c"; return; }
-  for p in "$@"; do
-    out=$(python3 check.py $p --tier quick 2>&1); rc=$?
-    echo "revert $c -> $p rc=$rc viol=$(echo "$out" | grep -c '^VIOLATION') $(echo "$out" | grep -m1 '^  formula' | cut -c1-120)"
-  done
-  git -C /repo checkout -- .
+run() { c=$1; shift
+  wt=/tmp/wt/rev-$c
+  git -C /repo worktree remove --force $wt >/dev/null 2>&1
+  git -C /repo worktree add -q --detach $wt HEAD || return
+  if git -C /repo show $c | git -C $wt apply -R 2>/dev/null; then
+    for p in "$@"; do
+      out=$(VERIF_REPO=$wt VERIF_EVIDENCE_DIR=/verif/.work/seed-evidence python3 check.py $p --tier quick 2>&1); rc=$?
+      echo "revert $c -> $p rc=$rc viol=$(echo "$out" | grep -c '^VIOLATION') $(echo "$out" | grep -m1 -e '^  formula' -e INFRA | cut -c1-120)"
+    done
+  else
+    echo "cannot revert $c alone (later fixes touch the same lines)"
+  fi
+  git -C /repo worktree remove --force $wt
 }
+run 89aa9be4 C07
+run ee9314a5 C03
+run a22da722 C05
+run 3e316352 C05 C07
 run 0e00c894 C13
 run 02383f48 C05 C07
 run 3f7f8cab C07
@@ -21,4 +32,3 @@ run 9d7ef8ce C01
 run 12fb78c6 C16 C08
 run 37663b08 C08
 run c05e1c11 C09
-git -C /repo status --short | head -3
